@@ -409,6 +409,13 @@ func GenCase(r *vh.Rng, flavor string) Case {
 			o.Vars = genVars(r, o.Q)
 		}
 	}
+	// connection options, drawn last so that the ops of a seed stay what they were
+	if r.Chance(30) {
+		c.Spawn = true
+	}
+	if r.Chance(12) {
+		c.IntervalMs = 20 + 10*r.Intn(2)
+	}
 	return c
 }
 
